@@ -233,8 +233,9 @@ def gen_atomic_grids_cider(
 
         if symb not in atom_grids_tab:
             chg = gto.charge(symb)
-            if symb in atom_grid:
-                n_rad, n_ang = atom_grid[symb]
+            atom_config = atom_grid.get(symb, atom_grid.get("default"))
+            if atom_config is not None:
+                n_rad, n_ang = atom_config
                 if n_ang not in LEBEDEV_NGRID:
                     raise ValueError("Unsupported angular grids %d" % n_ang)
             else:
